@@ -48,11 +48,20 @@ static void init_cfgs() {
 static jwt_alg_t cfg_alg(const Cfg &c) { return c.expl != JWT_ALG_NONE ? c.expl : c.attr.empty() ? JWT_ALG_NONE : jwt_str_alg(c.attr.c_str()); }
 
 // runs one verify under configuration ci and checks the C06 oracle; returns verdict
+static int verify_with_oracle_inner(size_t ci, const std::string &token);
 static int verify_with_oracle(size_t ci, const std::string &token) {
+  // reset global state: allocator (bit 15 of the selector: the application has installed its own allocator)
+  bool guard = (ci >> 15) & 1; ci &= 0x7fff;
+  jwt_set_alloc(NULL, NULL);
+  if (guard) { guard_foreign_frees() = 0; jwt_set_alloc(guard_malloc, guard_free); fs().cls("with-application-allocator"); }
+  int r = verify_with_oracle_inner(ci, token);
+  if (guard) { jwt_set_alloc(NULL, NULL); if (guard_foreign_frees()) oracle_fail("pointer-not-from-installed-allocator-passed-to-its-free", "cfg=" + std::to_string(ci % CFGS.size()) + " token=" + token.substr(0, 300)); }
+  return r;
+}
+static int verify_with_oracle_inner(size_t ci, const std::string &token) {
   FStats &st = fs();
   const Cfg &c = *CFGS[ci % CFGS.size()];
-  // reset global state: provider, allocator, clock
-  jwt_set_alloc(NULL, NULL);
+  // reset global state: provider, clock
   set_provider(c.prov);
   set_now(1700000000);
   jwt_checker_t *ch = jwt_checker_new();
